@@ -286,7 +286,16 @@ def mat_key(f):
     if f["clause"] == "Normalised":
         m = re.search(r"sumPpb \|-> (-?\d+)", f["detail"])
         return "mat:%s:Normalised:%s%s" % (f["who"], f["col"], ":" + m.group(1) if m else "")
+    if f["clause"] == "InstanceIndependent":
+        return "mat:%s:InstanceIndependent:%s" % (f["who"], f["col"])
     m = re.search(r'status \|-> "([^"]*)", micro \|-> (-?\d+)', f["detail"])
+    if m and f["clause"] == "UnitsAgree":  # status / micro are those of the entry point that is not the stated unit
+        p = re.search(r'inStatedUnit \|-> <<"([^"]*)"', f["detail"])
+        mode = m.group(1) if m.group(1) != "ok" else ("stated-" + p.group(1)) if p and p.group(1) != "ok" else "differs"
+        return "mat:%s:UnitsAgree:%s:%s" % (f["who"], f["col"], mode)
+    if m and f["clause"] in ("DerivedFinite", "NominalDerivedFinite"):
+        mode = m.group(1) if m.group(1) != "ok" else "zero" if int(m.group(2)) == 0 else "negative"
+        return "mat:%s:%s:%s:%s" % (f["who"], f["clause"], f["col"], mode)
     if m:
         mode = m.group(1) if m.group(1) != "ok" else "zero" if int(m.group(2)) == 0 else "negative"
         return "mat:%s:%s:%s" % (f["who"], f["clause"], mode)
@@ -390,15 +399,22 @@ def material_library(rep, doc, path, tier):
     nsamp = sum(len(r["samples"]) for m in mats for r in m["ranges"])
     lib = [m for m in mats if m["kind"] == "library"]
     tl = sum(t["checked"] for t in tallies if t["tally"] in ("DensityPositive", "PseudoDensityPositive", "ExpansionFinite", "NominalDensityPositive",
-                                                              "NominalPseudoDensityPositive", "NominalExpansionFinite"))
+                                                              "NominalPseudoDensityPositive", "NominalExpansionFinite", "DerivedFinite",
+                                                              "NominalDerivedFinite"))
     want = sum(len(r["samples"]) for m in lib if m["inst"] == "ok" for r in m["ranges"])
     if tl != want or want == 0:
         raise tlc.MachineryError("MaterialTable looked at %d samples of %d" % (tl, want))
+    both = sum(t["checked"] for t in tallies if t["tally"] == "UnitsAgree")
+    wantb = sum(len(r["samples"]) for m in lib if m["inst"] == "ok" for r in m["ranges"] if r["both"])
+    ninst = sum(t["checked"] for t in tallies if t["tally"] == "InstanceIndependent")
+    if both != wantb or wantb == 0 or ninst != sum(len(m["instances"]) for m in mats) or ninst < 3 * len(mats):
+        raise tlc.MachineryError("MaterialTable: UnitsAgree looked at %d of %d samples, InstanceIndependent at %d instances" % (both, wantb, ninst))
     for f in fails:
         rep.violation(mat_key(f), "material library: %s.%s fails %s: %s" % (f["who"], f["col"], f["clause"], f["detail"]),
                       {"direction": "table", "part": "mat", "failure": f})
     rep.add_traces("material-library", len(mats), nsamp,
-                   "every class of armi.materials instantiated and evaluated (density, pseudoDensity, linearExpansionPercent at %d "
+                   "every class of armi.materials instantiated three times (round robin) and evaluated (density, pseudoDensity, "
+                   "linearExpansionPercent through Tk= and Tc=, linearExpansionFactor, getThermalExpansionDensityReduction at %d "
                    "temperatures per stated range, end points as stated), validated by TLC against MaterialLibrary" % NT[tier])
     rep.extra["materials"] = {"classes": len(mats), "library": len(lib), "not_library": {m["name"]: m["kind"] for m in mats if m["kind"] != "library"},
                               "stated_ranges": sum(1 for m in lib for r in m["ranges"] if r["stated"] and r["fn"] == "density"),
@@ -446,6 +462,9 @@ def run(rep, tier, seed):
         "density = Material.density and Material.pseudoDensity, expansion = linearExpansionPercent (+ volumetricExpansion where a range is stated for it); "
         "all are probed over every stated density / expansion range, in the stated unit, end points exactly as stated; "
         "a class without a stated range is probed over a nominal 25..600 C (clauses Nominal...)",
+        "every material class is instantiated three times, round robin over the classes; later instances must equal the first (composition digit for digit, probed values)",
+        "both entry points (Tk=, Tc=) of every property are asked at every sample and must agree within one millionth; the Celsius-only derived functions "
+        "linearExpansionFactor(Tc=t, T0=lo) and getThermalExpansionDensityReduction(lo, t) must be finite (the reduction positive)",
         "quantisation: fractions in ppb preserving the comparisons with 0 and 1; densities and expansions in millionths rounded away from zero",
     )
 
@@ -674,6 +693,21 @@ def selftest():
     def sodium_init_raises(self):
         raise KeyError("NA")
 
+    from armi.materials import inconelPE16, thoriumOxide
+
+    pe16_nominal = {k: v for k, v in inconelPE16.InconelPE16().massFrac.items() if k != "FE"}  # hoisted to "class level"
+
+    def pe16_shared_composition(self):
+        massFracs = pe16_nominal
+        massFracs["FE"] = 1 - sum(massFracs.values())  # the balance is written into the shared dict
+        for element, massFrac in massFracs.items():
+            self.setMassFrac(element, massFrac)
+
+    def tho2_lep_forwards_both(self, Tk=None, Tc=None):
+        from armi.utils.units import getTk
+        Tk_ = getTk(Tc=Tc, Tk=Tk)
+        return 100 * (self.linearExpansion(Tk=Tk_, Tc=Tc) * (Tk_ - 298))
+
     ht9.HT9._c19_orig = ht9.HT9.setDefaultMassFracs
     uraniumOxide.UraniumOxide._c19_lep = uraniumOxide.UraniumOxide.linearExpansionPercent
 
@@ -699,6 +733,10 @@ def selftest():
         ("Zr refers to an unknown nuclide", lambda: P(zr.Zr, "setDefaultMassFracs", zr_unknown_nuclide)),
         ("UO2 linearExpansionPercent NaN at the top of its range", lambda: P(uraniumOxide.UraniumOxide, "linearExpansionPercent", uo2_lep_nan_at_top)),
         ("Material.pseudoDensity negative above 1.3 % expansion", lambda: P(material.Material, "pseudoDensity", pseudo_density_wrong_sign)),
+        ("InconelPE16 composition dict shared by all instances (second instance wrong)",
+         lambda: P(inconelPE16.InconelPE16, "setDefaultMassFracs", pe16_shared_composition)),
+        ("ThoriumOxide.linearExpansionPercent forwards Tk and Tc (Celsius entry points raise)",
+         lambda: P(thoriumOxide.ThoriumOxide, "linearExpansionPercent", tho2_lep_forwards_both)),
         ("Sodium cannot be instantiated", lambda: P(sodium.Sodium, "setDefaultMassFracs", sodium_init_raises)),
     ]
     try:
